@@ -151,8 +151,38 @@ func ewValues(c *core.Ctx, t reflect.Type, n int, class string, which int) []int
 	return out
 }
 
+// propEngine, when set (C20), is attached to every operand of its element type that the shared runners build.
+var propEngine tensor.Engine
+
+func engineFor(t reflect.Type) tensor.Engine {
+	switch propEngine.(type) {
+	case tensor.Float64Engine:
+		if t == model.TF64 {
+			return propEngine
+		}
+	case tensor.Float32Engine:
+		if t == model.TF32 {
+			return propEngine
+		}
+	}
+	return nil
+}
+
+func engineName() string {
+	switch propEngine.(type) {
+	case tensor.Float64Engine:
+		return "Float64Engine"
+	case tensor.Float32Engine:
+		return "Float32Engine"
+	}
+	return ""
+}
+
 func ewBuild(c *core.Ctx, t reflect.Type, shape []int, lay string, vals []interface{}, eng tensor.Engine, mask []bool) (*ewTensorObs, string) {
 	m := model.New(t, shape, vals)
+	if eng == nil {
+		eng = engineFor(t)
+	}
 	op, err := gen.BuildWith(m, lay, c.Rng, eng)
 	if err != nil {
 		return nil, "operand-precondition:" + lay
